@@ -15,7 +15,8 @@ Keys == << [s |-> "Title",     n |-> "title"],
            [s |-> "a.b_c-d",   n |-> "a.b_c-d"],
            [s |-> "Author",    n |-> "author"],
            [s |-> "1. Intro",  n |-> "1.intro"],
-           [s |-> "2019 rev",  n |-> "2019rev"] >>
+           [s |-> "2019 rev",  n |-> "2019rev"],
+           [s |-> "Author Affiliation", n |-> "authoraffiliation"] >>         \* a key that another key ("author") is a proper prefix of
 \* value: source lines (first line follows "key:", the others are indented continuation lines); each line is a
 \* sequence of atoms; w = TRUE marks white space
 W(x) == [s |-> x, w |-> TRUE]
@@ -29,7 +30,7 @@ Vals == << << <<T("plain"), W(" "), T("value")>> >>,
            << <<T("two"), W("  "), T("spaces"), W("\t"), T("tab")>> >>,
            << <<T("first")>>, <<T("second")>>, <<T("third&")>> >>,
            << <<T("C:\\dir\\"), W(" "), T("My"), W(" "), T("App\\bin")>> >> >>            \* backslashes, one of them before a space
-Bodies == << "", "Body paragraph.\n", "# Heading\n\ntext: with colon\n" >>
+Bodies == << "", "Body paragraph.\n", "# Heading\n\ntext: with colon\n", "Note: this first paragraph looks like a key\nsecond line\n\n# Heading\n" >>
 \* update values (single line)
 UVals == << <<T("new")>>, <<T("a"), W(" "), T("longer"), W(" "), T("replacement"), W(" "), T("&"), W(" "), T("more")>>, <<T("10:30")>>, <<T("x")>>, <<>>, <<T("a\\"), W(" "), T("b\\c")>> >>
 
@@ -42,7 +43,9 @@ EntrySrc(e) == Keys[e.k].s \o ": " \o ValSrc(Vals[e.v])
 BlockSrc(d) == (IF d.fence THEN "---\n" ELSE "") \o Cat([i \in 1 .. Len(d.entries) |-> EntrySrc(d.entries[i])]) \o (IF d.fence THEN "---\n" ELSE "")
 \* terminators: 1 = blank line then body, 2 = end of input after the final newline, 3 = end of input without a final newline
 ChopNL(s) == SubSeq(s, 1, Len(s) - 1)
+\*              4 = a line of white space only (a tab), then the body
 Spell(d) == CASE d.term = 1 -> BlockSrc(d) \o "\n" \o Bodies[d.body]
+              [] d.term = 4 -> BlockSrc(d) \o "\t\n" \o Bodies[d.body]
               [] d.term = 2 -> BlockSrc(d)
               [] OTHER      -> ChopNL(BlockSrc(d))
 BlockEnd(d) == IF d.term = 3 THEN Len(BlockSrc(d)) - 1 ELSE Len(BlockSrc(d))       \* the end offset has_metadata reports
@@ -69,6 +72,6 @@ Update(m, ki, uv) ==
       hits == {i \in 1 .. Len(m) : m[i].k = nk} IN
   IF hits = {} THEN Append(m, [k |-> nk, v |-> Clean(<<UVals[uv]>>)])
   ELSE [i \in 1 .. Len(m) |-> IF i = (CHOOSE h \in hits : \A j \in hits : h <= j) THEN [k |-> nk, v |-> Clean(<<UVals[uv]>>)] ELSE m[i]]
-BodyOf(d) == IF d.term = 1 THEN Bodies[d.body] ELSE ""
+BodyOf(d) == IF d.term \in {1, 4} THEN Bodies[d.body] ELSE ""
 DistinctKeys(d) == \A i, j \in 1 .. Len(d.entries) : i # j => d.entries[i].k # d.entries[j].k
 =============================================================================
